@@ -280,7 +280,7 @@ def main(argv=None):
                 shortfalls[lab] = f"{have}/{counted} (< {frac:.1%})"
                 # a shortfall is reported in the evidence; only a collapse of the class (below a quarter of its
                 # required share) is treated as a generator defect, so that an unlucky seed cannot break the check
-                if have < 0.25 * frac * counted:
+                if have < 0.25 * frac * counted and frac * counted >= 20:  # (not a small-sample artefact)
                     print(f"HARNESS-ERROR property={pid} class '{lab}' only {have}/{counted} cases "
                           f"(< a quarter of the required {frac:.1%}): generator defect")
                     rc = 2
